@@ -246,3 +246,45 @@ func H_C19_nested_lists() {
 	}
 	vReach("end")
 }
+
+// H_C19_exclusion_inside_list: excluding an element that sits inside a list removes that element's subtree only; the
+// list's other items - before and after it - are kept in every mode.
+//
+//symgo:harness prop=C19 kernel=K3-exclusion-inside-list noreplay=1
+//symgo:desc <ul> (or <ol>) with three items OutA, OutB, OutC; enumerated: a nested <ul class="sub-menu"> with two link items inside OutB's <li>, or an extra <li role="navigation"> between two items, or an extra <li class="sidebar"> at the end, placed after item 1 or 2 (enumerated); a paragraph follows the list: in every mode OutA, OutB, OutC and the paragraph each occur exactly once and in document order; in mode None the inserted element's text is present too. (Enumerated structure)
+func H_C19_exclusion_inside_list() {
+	tag := []string{"ul", "ol"}[vAnyIntIn(0, 1)]
+	kind := vAnyIntIn(0, 2)
+	at := vAnyIntIn(0, 1)
+	outer := vEl(tag, nil)
+	for i := 0; i < 3; i++ {
+		li := vEl("li", nil, vTxt("Out"+string(rune('A'+i))))
+		if kind == 0 && i == at {
+			li.AppendChild(vEl("ul", map[string]string{"class": "sub-menu"},
+				vEl("li", nil, vEl("a", map[string]string{"href": "#1"}, vTxt("SubOne"))),
+				vEl("li", nil, vEl("a", map[string]string{"href": "#2"}, vTxt("SubTwo")))))
+		}
+		outer.AppendChild(li)
+		if kind == 1 && i == at {
+			outer.AppendChild(vEl("li", map[string]string{"role": "navigation"}, vTxt("SubOne")))
+		}
+		if kind == 2 && i == at {
+			outer.AppendChild(vEl("li", map[string]string{"class": "sidebar"}, vTxt("SubOne")))
+		}
+	}
+	doc := &html.Node{Type: html.DocumentNode}
+	doc.AppendChild(vEl("html", nil, vEl("head", nil), vEl("body", nil, vEl("p", nil, vTxt("Intro")), outer, vEl("p", nil, vTxt("Closing")))))
+	r := &Reader{doc: doc, filteredCache: map[NavigationExclusionMode][]parsedElement{}}
+	r.extractBody(doc)
+	keep := []string{"Intro", "OutA", "OutB", "OutC", "Closing"}
+	for mode := NavigationExclusionNone; mode <= NavigationExclusionAggressive; mode++ {
+		txt := vAllText(r.getElements(mode))
+		seq, ok := vMarkerSeq(txt, keep)
+		vAssert("nothing-duplicated", ok)
+		vAssert("content-outside-the-excluded-subtree-is-kept-in-order", len(seq) == len(keep) && vIsSubseq(keep, seq))
+		if mode == NavigationExclusionNone {
+			vAssert("mode-none-keeps-everything", strings.Count(txt, "SubOne") == 1)
+		}
+	}
+	vReach("end")
+}
